@@ -126,7 +126,8 @@ func (h *HTTP) request(ctx *gin.Context) {
 	valid := true
 	IgnoreHeaders := [2]string{"Connection", "Accept-Encoding"}
 	for _, Header := range h.Config.Headers {
-		NameValue := strings.Split(Header, ": ")
+		// only the first ": " separates name and value, the value may contain it too
+		NameValue := strings.SplitN(Header, ": ", 2)
 		if len(NameValue) > 1 {
 			ignore := false
 			for _, IgnoreHeader := range IgnoreHeaders {
